@@ -569,6 +569,34 @@ func (dm *DagModifier) appendData(nd ipld.Node, spl chunker.Splitter) (ipld.Node
 
 	switch nd := nd.(type) {
 	case *mdag.ProtoNode:
+		if len(nd.Links()) == 0 {
+			// A leaf that holds file data cannot take children (readers skip
+			// the data of internal nodes): make it the first leaf of a new root.
+			leaf, err := ft.FSNodeFromBytes(nd.Data())
+			if err != nil {
+				return nil, err
+			}
+			if len(leaf.Data()) > 0 {
+				root := ft.NewFSNode(ft.TFile)
+				root.AddBlockSize(leaf.FileSize())
+				if leaf.Mode() != 0 {
+					root.SetMode(leaf.Mode())
+				}
+				if !leaf.ModTime().IsZero() {
+					root.SetModTime(time.Now())
+				}
+				rootBytes, err := root.GetBytes()
+				if err != nil {
+					return nil, err
+				}
+				rootNode := mdag.NodeWithData(rootBytes)
+				rootNode.SetCidBuilder(dm.Prefix)
+				if err := rootNode.AddNodeLink("", nd); err != nil {
+					return nil, err
+				}
+				nd = rootNode
+			}
+		}
 		// ProtoNode can be directly passed to trickle.Append
 		dbp := &help.DagBuilderParams{
 			Dagserv:    dagserv,
